@@ -27,10 +27,12 @@ FOREIGN_NS = 'urn:x-verif:foreign'
 
 NUM_TOKENS = ['0', '1', '-1', '2', '3', '0.5', '.5', '+1', '1.', '1e0', '-2.5', '3.25', '1E1', '-0', '1e-1',
               '0.1', '7.125', '100', '-.75', '+.5e1', '0.3333333', '2.0', '-4', '1.5e+1', '0.0', '12.5', '6',
-              '0.7', '-3.1415927', '1e-3', '42', '0.25', '8']
+              '0.7', '-3.1415927', '1e-3', '42', '0.25', '8', '16777217.0', '1e39', '1e-46', '3.4028235e38',
+              '0.30000001192092896', '-1e-45', '123456.789']
 POS_TOKENS = ['1', '2', '0.5', '.5', '+1', '1.', '1e0', '3.25', '1E1', '0.1', '7.125', '100', '+.5e1', '2.0',
               '1.5e+1', '12.5', '45', '60', '0.7', '30.5']
 NAN_TOKENS = ['nan', 'NaN', 'NAN', '-nan', '+nan']
+INF_TOKENS = ['INF', '-INF', 'inf', '-inf', 'Infinity', '+INF']
 WORDS = ['alpha', 'Beta', 'gamma3', 'delta_x', 'eps', 'zeta', 'Eta', 'theta', 'iota', 'kappa', 'lam', 'mu']
 
 
@@ -81,11 +83,14 @@ class G(object):
     def num(self, pos=False):
         return self.rng.choice(POS_TOKENS if pos else NUM_TOKENS)
 
-    def nums(self, n, nan=0.0):
+    def nums(self, n, nan=0.0, inf=0.0):
         out = []
         for _ in range(n):
-            if nan and self.rng.random() < nan:
+            r = self.rng.random()
+            if nan and r < nan:
                 out.append(self.rng.choice(NAN_TOKENS))
+            elif inf and r < nan + inf:
+                out.append(self.rng.choice(INF_TOKENS))
             else:
                 out.append(self.num())
         return out
@@ -124,8 +129,8 @@ class G(object):
 
 # --------------------------------------------------------------------------- sources
 
-def float_source(g, sid, params, count, nan=0.0, ptype='float'):
-    toks = g.nums(count * len(params), nan)
+def float_source(g, sid, params, count, nan=0.0, ptype='float', inf=0.0):
+    toks = g.nums(count * len(params), nan, inf)
     return {'id': sid, 'kind': 'float', 'tokens': toks, 'params': list(params), 'ptype': ptype}
 
 
@@ -158,9 +163,10 @@ def gen_geometry(g):
             'double_sided': None}
     srcs = geom['sources']
     nan = 0.12 if g.chance(0.4) else 0.0
+    inf = 0.08 if g.chance(0.25) else 0.0       # infinities are values like any other: they must come through unchanged
 
     def add_src(stem, params, lo=2, hi=5):
-        s = float_source(g, g.fid(gid + '-' + stem), params, rng.randint(lo, hi), nan)
+        s = float_source(g, g.fid(gid + '-' + stem), params, rng.randint(lo, hi), nan, inf=inf)
         srcs.append(s)
         return s
 
@@ -184,7 +190,7 @@ def gen_geometry(g):
     byid = {s['id']: s for s in srcs}
     vlevel = dict(vin)
 
-    nprims = rng.choice([1, 1, 2, 3]) if g.size > 0 else rng.choice([1, 1, 2])
+    nprims = rng.choice([0, 1, 1, 2, 3]) if g.size > 0 else rng.choice([0, 1, 1, 1, 2])
     for _ in range(nprims):
         tag = rng.choice(['triangles', 'triangles', 'tristrips', 'trifans', 'lines', 'polylist', 'polylist', 'polygons'])
         inputs = [['VERTEX', vid, None]]
@@ -337,8 +343,10 @@ def gen_camera(g):
 
 
 def render_camera(g, C):
-    body = ''.join(g.el(n, [], tok) for n, tok in C['params'])
-    body += g.el('znear', [], C['znear']) + g.el('zfar', [], C['zfar'])
+    def pad(tok):
+        return tok if not g.odd_ws else g.rng.choice(['', ' ', '\n']) + tok + g.rng.choice(['', ' ', '\t'])
+    body = ''.join(g.el(n, [], pad(tok)) for n, tok in C['params'])
+    body += g.el('znear', [], pad(C['znear'])) + g.el('zfar', [], pad(C['zfar']))
     return g.el('camera', [('id', C['id']), ('name', g.word() if g.chance(0.5) else None)],
                 g.el('optics', [], g.el('technique_common', [], g.el(C['kind'], [], body))) + g.maybe_extra())
 
@@ -547,7 +555,7 @@ TRANSFORM_ARITY = {'translate': 3, 'rotate': 4, 'scale': 3, 'matrix': 16, 'looka
 def gen_node(g, ctx, depth, inst_targets):
     """ctx: dict of available library ids; inst_targets: ids of nodes an instance_node may name"""
     rng = g.rng
-    N = {'id': g.fid('node') if g.chance(0.85) else None, 'name': g.word() if g.chance(0.5) else None,
+    N = {'id': g.fid('node') if g.chance(0.85) else None, 'name': (g.word() if g.chance(0.9) else '') if g.chance(0.5) else None,
          'sid': g.word() if g.chance(0.2) else None, 'type': rng.choice([None, None, 'NODE', 'JOINT']), 'items': []}
     nitems = rng.choice([0, 1, 2, 3, 4]) if g.size == 0 else rng.choice([0, 1, 2, 3, 4, 5, 6])
     for _ in range(nitems):
@@ -563,13 +571,23 @@ def gen_node(g, ctx, depth, inst_targets):
             N['items'].append({'t': 'node', 'node': gen_node(g, ctx, depth + 1, inst_targets)})
         elif r < 0.7 and ctx['geometries']:
             geom = rng.choice(ctx['geometries'])
+            symbols = [p['material'] for p in geom['prims'] if p['material']]
+
+            def some_binds():
+                return [[g.word().upper(), rng.choice(['TEXCOORD', 'COLOR']), rng.choice(['0', '1', '2'])]
+                        for _ in range(rng.choice([0, 0, 1, 2]))]
             mats = []
             if ctx['materials'] and g.chance(0.7):
                 for _ in range(rng.choice([1, 1, 2])):
-                    binds = [[g.word().upper(), rng.choice(['TEXCOORD', 'COLOR']), rng.choice(['0', '1', '2'])]
-                             for _ in range(rng.choice([0, 0, 1, 2]))]
-                    mats.append({'symbol': g.word(), 'target': rng.choice(ctx['materials'])['id'], 'binds': binds})
+                    # mostly the symbols the primitives of this geometry use, so that the binding matters
+                    sym = rng.choice(symbols) if symbols and g.chance(0.75) else g.word()
+                    mats.append({'symbol': sym, 'target': rng.choice(ctx['materials'])['id'], 'binds': some_binds()})
             N['items'].append({'t': 'geometry', 'url': geom['id'], 'materials': mats})
+            if mats and g.chance(0.3):
+                # a variant of the same instance in the same node (same transform, same symbols), bound differently
+                N['items'].append({'t': 'geometry', 'url': geom['id'],
+                                   'materials': [{'symbol': m['symbol'], 'target': rng.choice(ctx['materials'])['id'],
+                                                  'binds': some_binds()} for m in mats]})
         elif r < 0.77 and ctx['lights']:
             N['items'].append({'t': 'light', 'url': rng.choice(ctx['lights'])['id']})
         elif r < 0.84 and ctx['cameras']:
